@@ -1,7 +1,7 @@
 // shardmap binds spec/ShardMap.tla to the real shard-map code.
 //
 //	shardmap gen -out trace.ndjson
-//	    sharding.GenerateShards for 1..64 shards and powers of two +-1 up to 4096, then the same counts
+//	    sharding.GenerateShards for 1..64 shards, powers of two +-1 up to 4096 and counts around 2^16, then the counts up to 4097
 //	    as a namespace created by ApplyClusterChanges, published, fed to the client's shard manager and
 //	    routed (boundary hashes and random keys).
 //	shardmap replay -in behaviours.ndjson -out trace.ndjson -res result.json
@@ -750,7 +750,22 @@ func genCounts() []int {
 	return res
 }
 
+// counts around 2^16, where the rounded-up bucket size of GenerateShards meets the end of the 32-bit space
+var hugeCounts = []int{65535, 65536, 65537, 65538, 131071}
+
 func doGen(w *writer, rng *rand.Rand) {
+	for _, n := range hugeCounts {
+		l := newLine("Gen")
+		l.Base, l.Count = 5, n
+		var shards []sharding.Shard
+		if what := guarded(func() { shards = sharding.GenerateShards(5, uint32(n)) }); what != "" {
+			l.Res = what
+		}
+		for _, s := range shards {
+			l.Shards = append(l.Shards, shardRec{Id: s.Id, Min: limbs(s.Min), Max: limbs(s.Max)})
+		}
+		w.emit(l)
+	}
 	for _, n := range genCounts() {
 		for _, base := range []int64{0, 17} {
 			if base != 0 && n > 64 {
